@@ -609,7 +609,7 @@ func (ex *Exec) specCall(sc *Scope, e *ast.CallExpr) Val {
 		case "regexp.MustCompile":
 			f := ex.Ctx.Declare(fmt.Sprintf("ext_%s_0", name), sorts, "Ref")
 			return Ptr{Ref: smt.App(f, terms...)}
-		case "strings.Contains", "strings.HasPrefix", "strings.HasSuffix", "(*regexp.Regexp).MatchString":
+		case "strings.Contains", "strings.ContainsAny", "strings.HasPrefix", "strings.HasSuffix", "(*regexp.Regexp).MatchString":
 			ret = "Bool"
 		case "strings.Split", "strings.Fields":
 			fa := ex.Ctx.Declare(fmt.Sprintf("ext_%s_0_arr", name), sorts, "(Array Int Str)")
